@@ -280,3 +280,27 @@ func (p *Prog) CountedLoopBound(op ssa.Instruction) (bound ssa.Value, why string
 	}
 	return bound, ""
 }
+
+// ExitBlockOf returns the loops for which in's block is a direct exit target (entered from a loop
+// block other than through the loop, and not itself part of the loop): an action placed there runs
+// on the way out of the loop, i.e. at most once.
+func ExitBlockOf(in ssa.Instruction) []*Loop {
+	b := in.Block()
+	var out []*Loop
+	for _, h := range b.Parent().Blocks {
+		if !h.Dominates(b) || h == b {
+			continue
+		}
+		l := naturalLoop(h)
+		if l == nil || l.Blocks[b] {
+			continue
+		}
+		for _, p := range b.Preds {
+			if l.Blocks[p] && p != h {
+				out = append(out, l)
+				break
+			}
+		}
+	}
+	return out
+}
